@@ -268,6 +268,12 @@ func (r *runner) run(root string) int {
 		return viols[i].Idx < viols[j].Idx
 	})
 	replayDir := filepath.Join(root, "replays", p.ID)
+	// replay files of an earlier run with the same coordinates are stale
+	if old, _ := filepath.Glob(filepath.Join(replayDir, fmt.Sprintf("%s-%s-s%d-*.json", p.ID, r.tier, r.seed))); len(old) > 0 {
+		for _, f := range old {
+			os.Remove(f)
+		}
+	}
 	printed := 0
 	kinds := map[string]int{}
 	for i := range viols {
